@@ -249,6 +249,12 @@ class Engine(object):
   def declare(self, name, kind, term):
     self.vars[name] = (kind, term)
 
+  def define(self, name, cond):
+    """name a derived boolean term of this path so that known-finding signatures can refer to it"""
+    if self.mode != 'sym': return
+    from .values import lift_bool
+    self.vars[name] = ('bool', lift_bool(cond))
+
   def cover(self, label):
     self.path_covers.add(label)
 
